@@ -916,6 +916,18 @@ func (p *Parser) parsePrimaryExpression() (ast.Expression, error) {
 		}
 
 		// NOT followed by other expression (boolean negation)
+		// A chain NOT NOT NOT ... recurses without passing through parseExpression:
+		// count it against the depth limit so that it cannot exhaust the stack.
+		p.depth++
+		defer func() { p.depth-- }()
+		if p.depth > MaxRecursionDepth {
+			return nil, goerrors.RecursionDepthLimitError(
+				p.depth,
+				MaxRecursionDepth,
+				p.currentLocation(),
+				"",
+			)
+		}
 		// Parse at comparison level for proper precedence: NOT (a > b), NOT active
 		expr, err := p.parseComparisonExpression()
 		if err != nil {
